@@ -138,9 +138,16 @@ func (d *Document) ArgumentSetsAreEquals(left, right []int) bool {
 	if len(left) != len(right) {
 		return false
 	}
-	for i := range left {
-		leftArgument, rightArgument := left[i], right[i]
-		if !d.ArgumentsAreEqual(leftArgument, rightArgument) {
+	// arguments are an unordered set: f(a: 1, b: 2) and f(b: 2, a: 1) are the same selection
+	for _, leftArgument := range left {
+		found := false
+		for _, rightArgument := range right {
+			if d.ArgumentsAreEqual(leftArgument, rightArgument) {
+				found = true
+				break
+			}
+		}
+		if !found {
 			return false
 		}
 	}
